@@ -439,6 +439,8 @@ func indentLines(s, ind string) string {
 // by the host is covered in C19) is replaced while a call site that already ran is going to run again.
 func c02FuncVarPrograms() []string {
 	return []string{
+		// integer literals beyond int32 as keys of local maps (fused index instructions carry the literal themselves)
+		"package main\n\nfunc Main() {\n\tm := map[uint32]int{}\n\tvar k uint32 = 3000000000\n\tm[k] = 7\n\tprintln(m[3000000000], len(m))\n\tm[4000000000] = 9\n\tvar k2 uint32 = 4000000000\n\tprintln(m[k2], len(m))\n\tf := map[float64]int{}\n\tf[3000000000] = 1\n\tkf := 3000000000.0\n\tprintln(f[kf], f[3000000000], len(f))\n\tfor q := range f {\n\t\tprintln(q > 0)\n\t}\n}\n",
 		"package main\n\nvar f = func(n int) int { return n + 10 }\n\nfunc call(n int) int { return f(n) }\n\nfunc Main() {\n\tprintln(call(1))\n\tf = func(n int) int { return n * 20 }\n\tprintln(call(1))\n\tfor i := 0; i < 4; i++ {\n\t\tif i == 2 {\n\t\t\tf = func(n int) int { return -n }\n\t\t}\n\t\tprintln(f(i), call(i))\n\t}\n}\n",
 		"package main\n\nfunc a(n int) int { return n + 1 }\n\nfunc b(n int) int { return n + 2 }\n\nvar g = a\n\nfunc use(n int) int { return g(n) + g(n) }\n\nfunc Main() {\n\tt := 0\n\tfor i := 0; i < 6; i++ {\n\t\tt += use(i)\n\t\tif i%2 == 0 {\n\t\t\tg = b\n\t\t} else {\n\t\t\tg = a\n\t\t}\n\t}\n\tprintln(t, g(0))\n}\n",
 		"package main\n\ntype H struct{ fn func(int) int }\n\nvar h = &H{fn: func(n int) int { return n + 5 }}\n\nvar table = []func(int) int{func(n int) int { return n }, func(n int) int { return n * n }}\n\nfunc run(n int) int { return h.fn(n) + table[n%2](n) }\n\nfunc Main() {\n\tprintln(run(3))\n\th.fn = func(n int) int { return n - 5 }\n\ttable[1] = func(n int) int { return 0 }\n\tprintln(run(3))\n\th = &H{fn: table[0]}\n\tprintln(run(3), run(4))\n}\n",
